@@ -1,1 +1,26 @@
-def main : IO Unit := IO.println "hi"
+import Starcal.Drv.Cal
+import Starcal.Drv.Misc
+/-! Line-protocol driver: runs the executable definitions of the model (the very
+    definitions the theorems are about) on requests read from stdin, one response
+    line per request. See DESIGN.md section 10b. -/
+open Starcal.Drv
+
+def dispatch (toks : List String) : String :=
+  match toks with
+  | "cal" :: rest => calRequest rest
+  | "misc" :: rest => miscRequest rest
+  | _ => "bad-request"
+
+partial def loop (inp : IO.FS.Stream) (out : IO.FS.Stream) : IO Unit := do
+  let line ← inp.getLine
+  if line.isEmpty then return ()
+  let l := (line.dropRightWhile (fun c => c == '\n' || c == '\r'))
+  let resp := dispatch (l.splitOn " ")
+  out.putStrLn resp
+  loop inp out
+
+def main : IO Unit := do
+  let inp ← IO.getStdin
+  let out ← IO.getStdout
+  loop inp out
+  out.flush
